@@ -62,6 +62,7 @@ func runC28(c *Ctx) {
 	// every construction reaches it: all segments enter the graph, and Combine hands
 	// the three lists to newDMG as they came.
 	segmentsEnterGraph(c, "D0-every-construction-is-a-candidate")
+	c.Borrow(runC29, map[string]string{"S3-edge-stored": "D0-every-construction-is-a-candidate", "S5-only-documented-filters": "D0-every-construction-is-a-candidate"})
 	if cv := c.View(ck + "Combine"); cv != nil {
 		cv.RequireCallArgs("D0-every-construction-is-a-candidate", 1, ck+"newDMG", "arg2", "arg3", "arg4")
 	}
